@@ -341,6 +341,10 @@ def run_cases(ck, cases, label):
     bad = [c for c in skipped if c["out"]["err"] not in ("nosplit", "parse", "plan")]
     ck.obligation("%s: every generated case ran (no timeout / unknown processor)" % label, not bad,
                   "; ".join("%s: %s %s" % (c["id"], c["out"]["err"], c["out"].get("err_msg", "")[:100]) for c in bad[:5]))
+    refused = [c for c in chain_cases if c["class"] == "refused"]
+    not_refused = [c for c in refused if c["out"]["err"] != "plan"]
+    ck.obligation("%s: topk / bottomk / quantile_over_time over a split pipeline are refused by the planner (%d queries): they never run in process" % (label, len(refused)),
+                  not not_refused, "; ".join("%s -> %s" % (c["query"], c["out"]["err"]) for c in not_refused[:3]))
     pm = panic_mode()
     KILLS[0] = pm == "crash"
     wrong_kind = [c for c in runnable if (c["out"]["err"] == "crash" and pm != "crash") or (c["out"]["err"] == "panic" and pm != "entry" and not any(e["err"] == "panic" for b in c["in"] for e in b))]
@@ -369,6 +373,8 @@ def run_cases(ck, cases, label):
     known = ck.known_findings()
     new = []
     for cid, code in viol:
+        if code == 1 and "Too many time-series" in (byid[cid]["out"].get("err_msg") or ""):
+            continue        # the documented limit of 2000 series per aggregation is a refusal, not a wrong answer
         fid = classify(byid[cid], code)
         if fid and fid in known:
             ck.report_known(fid, known[fid][:160])
@@ -425,7 +431,23 @@ def nontrivial(c):
     return n >= 2 and len(c["in"]) >= 2 and len(c["chain"]) >= 3
 
 
+def dead_code_scan(ck):
+    """MatrixStepPlanner (two copies) is not modelled: it must stay without a construction site"""
+    hits = []
+    root = os.path.join(vcheck.REPO, "reader")
+    for dp, dn, fn in os.walk(root):
+        for f in fn:
+            if f.endswith(".go") and not f.endswith("_test.go"):
+                txt = open(os.path.join(dp, f), errors="replace").read()
+                for m in re.finditer(r"MatrixStepPlanner\s*\{", txt):
+                    line = txt[:m.start()].splitlines()[-1] if txt[:m.start()].splitlines() else ""
+                    if not re.search(r"type\s+$", line + " ") and "type MatrixStepPlanner" not in txt[max(0, m.start() - 5):m.end()]:
+                        hits.append(os.path.relpath(os.path.join(dp, f), vcheck.REPO))
+    ck.obligation("MatrixStepPlanner (unmodelled) has no construction site in reader/", not hits, ", ".join(hits[:5]))
+
+
 def run(ck):
+    dead_code_scan(ck)
     ck.trusted += [
         "C09: json/logfmt decoding, text/template rendering, regexp matching and strconv.ParseFloat are oracles (Section variables in the theorems; per-case tables computed by running the real stage / library on each single line in the correspondence); CityHash64 is an oracle",
         "C09: float64 is abstract in the theorems; the correspondence instantiates it with Coq's primitive binary64 floats; generated values keep cross-series sums exact so that Go's unspecified map iteration order cannot change a result",
